@@ -25,6 +25,7 @@ ASSUMPTIONS = [
     'label stacks: the 3 spare bits of a label entry are zero; label 0 is not the first entry of a multi-label stack (ExaBGP reads 0x000000 as a one-entry stack, a convention outside RFC 3107/8277); the label of a withdrawal is not compared (RFC 8277 2.4)',
     'the link-local part of a 32-byte IPv6 next hop is not part of the report: the API has one next-hop per route (the global address)',
     'AS paths are compared after coalescing adjacent AS_SEQUENCE segments (splitting a sequence does not change the path)',
+    'an empty AS_PATH and no AS_PATH are the same report (ExaBGP prints neither)',
     'NEXT_HOP is compared through the next hop of the announced IPv4 routes and, in the attribute list, whenever ExaBGP prints it',
 ]
 TRUSTED_EXTRA = [
@@ -92,6 +93,22 @@ def expected_of_sem(u: dict, shape: dict) -> dict:
 # comparison
 
 
+OPAQUE_CODES: set[int] = set()  # attribute codes ExaBGP decodes structurally and M-Wire carries as opaque bytes
+
+
+def comparable_attrs(model_attrs: dict, impl_attrs: dict) -> tuple[dict, dict]:
+    """The two attribute maps restricted to what both sides print (see ASSUMPTIONS)."""
+    ma, ia = dict(model_attrs), dict(impl_attrs)
+    if 3 not in ia:
+        ma.pop(3, None)  # NEXT_HOP is printed with the routes; in the attribute list only next to withdraws
+    if ma.get(2) == '-' and 2 not in ia:
+        ma.pop(2)  # an empty AS_PATH is printed as no as-path
+    for c in OPAQUE_CODES:
+        ma.pop(c, None)
+    ia.pop(-1, None)  # keys of attributes outside M-Wire (compared as opaque by nobody)
+    return ma, ia
+
+
 def diff_reports(model: dict, impl: dict) -> list[str]:
     """Parts on which the implementation's report differs from the reference: 'eor', 'ann', 'wd', 'attr:<code>'."""
     d = []
@@ -103,9 +120,7 @@ def diff_reports(model: dict, impl: dict) -> list[str]:
         d.append('ann')
     if model['wd'] != impl['wd']:
         d.append('wd')
-    ma, ia = dict(model['attrs']), dict(impl['attrs'])
-    if 3 not in ia:
-        ma.pop(3, None)  # NEXT_HOP is printed with the routes; in the attribute list only next to withdraws
+    ma, ia = comparable_attrs(model['attrs'], impl['attrs'])
     for c in sorted(set(ma) | set(ia)):
         if ma.get(c) != ia.get(c):
             d.append(f'attr:{c}')
@@ -119,6 +134,10 @@ def outcome(S: wirerig.Session, body: bytes, model_line: str) -> tuple[str, dict
     if 'err' in model:
         # the reference refuses it: not a well-formed message (recorded traffic under a foreign shape)
         return 'model-refuses', {'model': model['err'], 'impl': res['kind']}, res
+    if model.get('raw'):
+        # a family outside AFI 1/2 x SAFI 1,2,4,128: not negotiated on these sessions, so not a message
+        # the peer may send (RFC 4760 §8); ExaBGP refuses it, the reference carries it as opaque bytes
+        return 'family-not-negotiated', {'families': model['raw'], 'impl': res['kind']}, res
     if res['kind'] == 'raised':
         return 'raised:' + res['exc'], {'text': res['text']}, res
     if res['kind'] == 'notify':
@@ -141,6 +160,8 @@ def _mandatory_ok(u: dict) -> bool:
     codes = [a['code'] for a in u['a']]
     if len(codes) != len(set(codes)):
         return False
+    if (17 in codes and 2 not in codes) or (18 in codes and 7 not in codes):
+        return False  # AS4_* only ever accompany the attribute they complete
     if u['n'] and not {1, 2, 3} <= set(codes):
         return False
     if any(a['code'] == 14 for a in u['a']) and not {1, 2} <= set(codes):
@@ -253,10 +274,15 @@ def canon_of(S: wirerig.Session, u: dict, what: str) -> dict:
     p2 = next((a for a in u['a'] if a['code'] == 2), None)
     p4 = next((a for a in u['a'] if a['code'] == 17), None)
     if p2 is not None and p4 is not None:
-        canon['as-path'] = seg_pattern(p2['segs'])
-        canon['as4-path'] = seg_pattern(p4['segs'])
-        canon['as4-has-4byte-asn'] = any(x > 65535 for _, asns in p4['segs'] for x in asns)
-        canon['count'] = 'as2<as4' if wiregen.pathcount(p2['segs']) < wiregen.pathcount(p4['segs']) else 'as2>=as4'
+        # coarse on purpose, so that the form does not depend on which minimal path the shrinker reached
+        if not p4['segs']:
+            canon['as4-path'] = 'empty'
+        else:
+            canon['as4-path'] = 'non-empty'
+            canon['as4-has-4byte-asn'] = any(x > 65535 for _, asns in p4['segs'] for x in asns)
+            if not what.startswith('raised'):
+                canon['set-or-confed-segment'] = any(t != 2 for t, _ in p2['segs'] + p4['segs'])
+                canon['count'] = 'as2<as4' if wiregen.pathcount(p2['segs']) < wiregen.pathcount(p4['segs']) else 'as2>=as4'
     return canon
 
 
@@ -331,6 +357,7 @@ def run(ctx: Ctx) -> None:
         ctx.notes.append('drv_wire did not build: no correspondence run')
         return
     unknown_codes = [c for c in list(range(11, 14)) + list(range(19, 256)) if c not in wiregen.exabgp_only_codes() and c not in wiregen.KNOWN]
+    OPAQUE_CODES.update(wiregen.exabgp_only_codes())
     sessions = [wirerig.Session(addpath=s['addpath'], asn4=s['asn4'], extnh=s['extnh']) for s in shapes]
     for S in sessions:
         ctx.count(f'shape:asn4={int(S.asn4)},addpath={len(S.addpath)},extnh={len(S.extnh)}', 0)
@@ -398,9 +425,9 @@ def run(ctx: Ctx) -> None:
         what, details, res = outcome(S, body, c['model'])
         ctx.evaluations += 1
         ctx.count('origin:' + c['origin'])
-        if what == 'model-refuses':
-            ctx.count('not-well-formed-under-shape')
-            # both must refuse or at least not crash; a crash on foreign bytes belongs to C03
+        if what in ('model-refuses', 'family-not-negotiated'):
+            ctx.count('skipped:' + what)
+            # not a well-formed message under this shape; what ExaBGP does with it belongs to C03 / C08
             continue
         model = wirerig.report_of_line(c['model'])
         for t in sorted(c['sem']['tags']) if 'sem' in c else []:
@@ -443,9 +470,7 @@ def run(ctx: Ctx) -> None:
                 else:
                     for k, (nh, ls, at) in ref.items():
                         gn, gl, ga = got[k]
-                        ma = dict(at)
-                        if 3 not in ga:
-                            ma.pop(3, None)
+                        ma, ga = comparable_attrs(at, ga)
                         if gn != nh:
                             rwhat = 'rib:nexthop'
                         elif gl != ls:
